@@ -165,7 +165,9 @@ def iterwalk(element: etree.Element, ns_map: dict) -> Iterator[tuple[str, Any]]:
     yield EventType.START, element
 
     for child in element:
-        yield from iterwalk(child, ns_map)
+        # Comments and processing instructions have a callable tag
+        if isinstance(child.tag, str):
+            yield from iterwalk(child, ns_map)
 
     yield EventType.END, element
 
